@@ -27,6 +27,9 @@ func init() {
 			ruleMatcherGuard(c, r, "", false)
 			ruleDeepCopy(c, r, "")
 			ruleOpSiblings(c, r, "")
+			ruleCounting(c, r, "", "write")
+			ruleBlockWriterHash(c, r, "")
+			ruleBlockFilters(c, r, "")
 			ruleCoderStates(c, r, "")
 			ruleProbModel(c, r, "")
 			ruleStateFormulas(c, r, "")
@@ -53,6 +56,10 @@ func init() {
 			ruleDecoderReps(c, r, "")
 			ruleOpSiblings(c, r, "")
 			ruleRingModulus(c, r, "", "dec")
+			ruleDecoderBounds(c, r, "")
+			ruleCounting(c, r, "", "read")
+			ruleRawEOFFlag(c, r, "")
+			ruleCheckEncoding(c, r, "")
 			ruleDictCapDecode(c, r, "")
 			ruleLzmaFilterCodec(c, r, "")
 			ruleCheckIDs(c, r, "")
